@@ -360,7 +360,8 @@ func derLengthOctets(b []byte) []int {
 }
 
 func c04inputs(e c04entry, thorough bool, each func(in c04input) bool) {
-	subs := func(b byte) []byte { return []byte{0x00, 0x01, 0x7f, 0x80, 0xff, b ^ 0x01, b ^ 0x80} }
+	// five fixed values, two bit flips and the two neighbours of the value that is there (an identifier becomes the next one)
+	subs := func(b byte) []byte { return []byte{0x00, 0x01, 0x7f, 0x80, 0xff, b ^ 0x01, b ^ 0x80, b + 1, b - 1} }
 	for ci, item := range e.corpus() {
 		if !each(c04input{"valid", ci, 0, item}) {
 			return
